@@ -91,7 +91,7 @@ pub fn cmd_miri(m: &HashMap<String, String>) -> i32 {
     println!("references computed: {}", refs.computed);
 
     // ---- free-running threads: Miri's scheduler decides
-    let rs = RunShared::new(plan.nshared_ctx);
+    let rs = RunShared::new(plan.nshared_ctx, RunShared::needs_prepared(&all_ops));
     let results: Vec<Vec<(String, Outcome)>> = with_objs_pub(&plan, nthreads, |objs| {
         std::thread::scope(|s| {
             let mut hs = vec![];
